@@ -581,3 +581,4 @@ def check(run):
         check_diagonal(run, f, cfg)
     run.assumptions.append("foreign conversions listed in TRUSTED (uuid adapters, chrono from_naive_utc_and_offset) preserve the value")
     run.assumptions.append("Value::eq used by Option<T>::try_from is structural (derived) or coherent (C18)")
+    run.delegate("C18", "Option<T>::try_from and the Value round trip compare through Value::eq, which C18 decides")
